@@ -20,6 +20,15 @@ func (b Bundle) Fragment(mtu int) (bs []Bundle, err error) {
 		return
 	}
 
+	// A bundle which already fits into the MTU does not need to be fragmented.
+	bundleBuff := new(bytes.Buffer)
+	if err = b.WriteBundle(bundleBuff); err != nil {
+		return
+	} else if bundleBuff.Len() <= mtu {
+		bs = []Bundle{b}
+		return
+	}
+
 	var (
 		cborOverhead     = 2
 		extFirstOverhead int
@@ -90,7 +99,9 @@ func (b Bundle) Fragment(mtu int) (bs []Bundle, err error) {
 		i += fragPayloadBlockLen
 	}
 
-	if len(bs) == 1 {
+	if len(bs) == 0 {
+		err = fmt.Errorf("bundle without payload data exceeds MTU")
+	} else if len(bs) == 1 {
 		bs = []Bundle{b}
 	}
 
